@@ -104,6 +104,60 @@ type Node struct {
 	Op    string `json:"op,omitempty"` // $match $lt $lte $gt $gte
 	Val   *Val   `json:"val,omitempty"`
 	Items []Node `json:"items,omitempty"`
+	// RawOp, when set, is the operator key written into the JSON form of this node instead of the documented one
+	// ($and/$or, $not, $match...): hostile text in operator position. Such a tree exists only as JSON (ParseJSON).
+	RawOp *BStr `json:"rawop,omitempty"`
+}
+
+// normalize turns a raw operator key that is a documented one into the documented node, so that the twin (the same
+// tree with documented operators) is well defined.
+func normalize(n Node) Node {
+	out := n
+	out.Items = nil
+	for _, it := range n.Items {
+		out.Items = append(out.Items, normalize(it))
+	}
+	if out.RawOp == nil {
+		return out
+	}
+	o := string(*out.RawOp)
+	switch out.T {
+	case "and", "or":
+		if o == "$and" || o == "$or" {
+			out.T, out.RawOp = o[1:], nil
+		}
+	case "not":
+		if o == "$not" {
+			out.RawOp = nil
+		}
+	case "leaf":
+		switch o {
+		case "$match", "$lt", "$lte", "$gt", "$gte":
+			out.Op, out.RawOp = o, nil
+		}
+	}
+	return out
+}
+
+func (n Node) hasRawOp() bool {
+	if n.RawOp != nil {
+		return true
+	}
+	for _, it := range n.Items {
+		if it.hasRawOp() {
+			return true
+		}
+	}
+	return false
+}
+
+func (n Node) rawOps(f func(string)) {
+	if n.RawOp != nil {
+		f(string(*n.RawOp))
+	}
+	for _, it := range n.Items {
+		it.rawOps(f)
+	}
 }
 
 type Input struct {
@@ -614,6 +668,35 @@ func (h *harness) runStore(in Input, count bool, qb query.Builder) (out outcome)
 	return out
 }
 
+// runTree runs the listing with the filter tree. A tree with hostile operator keys exists only as JSON: it goes
+// through the real query.ParseJSON first (Err "parse" when that rejects it, "panic-parse" when it panics).
+func (h *harness) runTree(in Input, count bool, tree Node) (out outcome) {
+	if !tree.hasRawOp() {
+		return h.runStore(in, count, tree.builder())
+	}
+	body, ok := tree.v2Body()
+	if !ok {
+		return outcome{Err: "parse"}
+	}
+	var qb query.Builder
+	var err error
+	func() {
+		defer func() {
+			if r := recover(); r != nil {
+				out.Err = "panic-parse"
+			}
+		}()
+		qb, err = query.ParseJSON(body)
+	}()
+	if out.Err != "" {
+		return out
+	}
+	if err != nil || qb == nil {
+		return outcome{Err: "parse"}
+	}
+	return h.runStore(in, count, qb)
+}
+
 func hasCount(listing string) bool { return listing == "accounts" || listing == "transactions" }
 
 // the fragment of the WHERE clause that renders `tree`, cut out between two harmless sentinel clauses
@@ -720,7 +803,11 @@ func (n Node) v2Body() (string, bool) {
 		if !ok {
 			return "", false
 		}
-		return fmt.Sprintf(`{%s:{%s:%s}}`, jsonStrRaw(n.Op), jsonStrRaw(string(n.Key)), v), true
+		op := n.Op
+		if n.RawOp != nil {
+			op = string(*n.RawOp)
+		}
+		return fmt.Sprintf(`{%s:{%s:%s}}`, jsonStrRaw(op), jsonStrRaw(string(n.Key)), v), true
 	case "and", "or":
 		var parts []string
 		for _, it := range n.Items {
@@ -730,11 +817,19 @@ func (n Node) v2Body() (string, bool) {
 			}
 			parts = append(parts, t)
 		}
-		return fmt.Sprintf(`{"$%s":[%s]}`, n.T, strings.Join(parts, ",")), true
+		op := "$" + n.T
+		if n.RawOp != nil {
+			op = string(*n.RawOp)
+		}
+		return fmt.Sprintf(`{%s:[%s]}`, jsonStrRaw(op), strings.Join(parts, ",")), true
 	case "not":
 		if len(n.Items) == 1 {
 			if t, ok := n.Items[0].v2Body(); ok {
-				return `{"$not":` + t + `}`, true
+				op := "$not"
+				if n.RawOp != nil {
+					op = string(*n.RawOp)
+				}
+				return `{` + jsonStrRaw(op) + `:` + t + `}`, true
 			}
 		}
 	}
@@ -928,7 +1023,7 @@ func (h *harness) httpCalls(in Input, tw Node) []httpCall {
 			}
 		}
 	}
-	if q, t, ok := v1Params(in); ok {
+	if q, t, ok := v1Params(in); ok && !in.Tree.hasRawOp() {
 		if in.PIT == "set" {
 			q.Set("pit", pitTime.Format(time.RFC3339Nano))
 			t.Set("pit", pitTime.Format(time.RFC3339Nano))
@@ -982,6 +1077,7 @@ func clientStrings(n Node) []string {
 		out = append(out, string(l.Key))
 		val(l.Val)
 	})
+	n.rawOps(func(o string) { out = append(out, o) })
 	return out
 }
 
@@ -1171,7 +1267,7 @@ func (h *harness) coqCase(r *vx.Run, in Input, tw Node, count bool, variant, cc 
 		return ""
 	}
 	ct, ok := coqTree(in.Tree)
-	if !ok || size(in) > maxCoqLen {
+	if !ok || size(in) > maxCoqLen || in.Tree.hasRawOp() {
 		r.Count("coq:skipped")
 		return ""
 	}
@@ -1202,6 +1298,7 @@ func (h *harness) coqCase(r *vx.Run, in Input, tw Node, count bool, variant, cc 
 var maxCoqLen = 1500
 
 func (h *harness) one(r *vx.Run, in Input, emit bool) {
+	in.Tree = normalize(in.Tree)
 	tw := twin(in.Listing, in.Tree)
 	strs := clientStrings(in.Tree)
 	cc := charClass(strs)
@@ -1226,7 +1323,7 @@ func (h *harness) one(r *vx.Run, in Input, emit bool) {
 				}
 				return n
 			}
-			out := Node{T: n.T}
+			out := Node{T: n.T, RawOp: n.RawOp}
 			for _, it := range n.Items {
 				out.Items = append(out.Items, walk(it))
 			}
@@ -1263,6 +1360,9 @@ func (h *harness) one(r *vx.Run, in Input, emit bool) {
 				classes[keyClass(in.Listing, string(n.Key))] = true
 			}
 		})
+		if cur.Tree.hasRawOp() {
+			classes["operator"] = true
+		}
 		var cl []string
 		for k := range classes {
 			cl = append(cl, k)
@@ -1276,8 +1376,30 @@ func (h *harness) one(r *vx.Run, in Input, emit bool) {
 		if count {
 			variant = "count"
 		}
-		a := h.runStore(in, count, in.Tree.builder())
-		b := h.runStore(in, count, tw.builder())
+		a := h.runTree(in, count, in.Tree)
+		b := h.runTree(in, count, tw)
+		if a.Err == "panic-parse" {
+			r.FailSized("panic:ParseJSON:"+cc, in, "query.ParseJSON panicked on the filter", size(in))
+			continue
+		}
+		if a.Err == "panic" && !a.rejected() {
+			// after the statement was sent: bunpaginate on the empty result set (a paginationID with no row), not C20
+			r.Count("panic-after-statement")
+		}
+		if a.Err == "panic" && a.rejected() {
+			known := false // the log listing panics on an unknown key on the unchanged tree (not C20's business)
+			if in.Listing == "logs" {
+				in.Tree.leaves(func(n *Node) {
+					if n.Key != "date" {
+						known = true
+					}
+				})
+			}
+			if !known {
+				r.FailSized("panic:store:"+in.Listing+":"+variant+":"+cc, in, "the store call panicked on the filter", size(in))
+				continue
+			}
+		}
 		if a.Err == "none" {
 			r.FailSized("harness:no-statement:"+in.Listing, in, "the call returned no error and sent no statement", size(in))
 			continue
@@ -1301,7 +1423,7 @@ func (h *harness) one(r *vx.Run, in Input, emit bool) {
 				via = "store-cursor"
 			}
 			fail(clause, variant, via, detail, func(ci Input) (outcome, outcome, bool) {
-				return h.runStore(ci, count, ci.Tree.builder()), h.runStore(ci, count, twin(ci.Listing, ci.Tree).builder()), true
+				return h.runTree(ci, count, ci.Tree), h.runTree(ci, count, twin(ci.Listing, ci.Tree)), true
 			})
 		}
 		// Coq case
@@ -1451,6 +1573,16 @@ func genKey(g *vx.Rng, listing string) string {
 }
 
 func genTree(g *vx.Rng, listing string, depth int, long bool) Node {
+	n := genTree0(g, listing, depth, long)
+	if g.Chance(1, 12) {
+		forms := opForms(genString(g, false))
+		o := BStr(forms[g.Intn(len(forms))])
+		n.RawOp = &o
+	}
+	return n
+}
+
+func genTree0(g *vx.Rng, listing string, depth int, long bool) Node {
 	if depth >= 3 || g.Chance(3, 5) {
 		v := genVal(g, 0, long)
 		return Node{T: "leaf", Key: BStr(genKey(g, listing)), Op: ops[g.Intn(len(ops))], Val: &v}
@@ -1473,6 +1605,48 @@ func genTree(g *vx.Rng, listing string, depth int, long bool) Node {
 }
 
 var listings = []string{"accounts", "transactions", "balances", "logs"}
+
+// valid leaves of a listing, used as children of nodes whose operator key is hostile
+func validLeaves(listing string) []Node {
+	leaf := func(k, op, v string) Node {
+		return Node{T: "leaf", Key: BStr(k), Op: op, Val: &Val{K: "str", S: BStr(v)}}
+	}
+	switch listing {
+	case "accounts":
+		return []Node{leaf("address", "$match", "users:"), leaf("metadata[k1]", "$match", "v"), leaf("balance[USD]", "$lt", "5")}
+	case "transactions":
+		return []Node{leaf("reference", "$match", "a"), leaf("reference", "$match", "b"), leaf("account", "$match", "users:001")}
+	case "balances":
+		return []Node{leaf("address", "$match", "users:"), leaf("metadata[k1]", "$match", "v"), leaf("address", "$match", "bank")}
+	}
+	return []Node{leaf("date", "$lt", "2023-01-01T00:00:00Z"), leaf("date", "$gte", "2022-01-01T00:00:00Z"), leaf("date", "$lt", "x")}
+}
+
+// operator keys made from a hostile string
+func opForms(s string) []string {
+	return []string{"$" + s, s, "$or" + s, "$and " + s + " and", "$or " + s + " or"}
+}
+
+// a tree with the hostile operator key `op` at position pos (0..4), for the listing
+func opTree(listing, op string, pos, width int) Node {
+	o := BStr(op)
+	kids := validLeaves(listing)[:width]
+	set := Node{T: []string{"or", "and"}[pos%2], Items: kids, RawOp: &o}
+	switch pos % 5 {
+	case 0: // set at the top
+		return set
+	case 1: // set inside a documented $and
+		return Node{T: "and", Items: []Node{kids[0], set}}
+	case 2: // set inside $not inside $or
+		return Node{T: "or", Items: []Node{{T: "not", Items: []Node{set}}, kids[0]}}
+	case 3: // comparison node
+		l := kids[0]
+		l.RawOp = &o
+		return Node{T: "and", Items: []Node{l, kids[1]}}
+	}
+	// $not wrapper
+	return Node{T: "and", Items: []Node{{T: "not", Items: []Node{kids[0]}, RawOp: &o}, kids[1]}}
+}
 
 // cursorVariants: the paging fields a forged cursor can carry, for the listing's pagination kind
 func cursorVariants(listing string) []CursorSpec {
@@ -1584,6 +1758,29 @@ func main() {
 						h.one(r, withCursor(ik, nsys), false)
 					}
 				}
+			}
+		}
+	}
+	// hostile text in OPERATOR position (exists only in the JSON syntax: ParseJSON + store call, v2 body, v1 `query`,
+	// cursors), at every kind of node and nesting, with 2-3 valid children
+	nop := 0
+	extra := []string{"", "$", "$AND", "$or ", "$nor", "$and", "$ or", "$or zq1injected = 1 or", "$and zq1 = 1 and", "$or\n--", "$or/*", "$or' or '"}
+	for _, l := range listings {
+		var opsList []string
+		for hi, s := range hostile {
+			forms := opForms(s)
+			opsList = append(opsList, forms[hi%len(forms)], forms[(hi+3)%len(forms)])
+		}
+		opsList = append(opsList, extra...)
+		for oi, op := range opsList {
+			for pos := 0; pos < 5; pos++ {
+				if !r.Thorough() && pos != (oi+nop)%5 && pos != 0 {
+					continue
+				}
+				in := Input{Listing: l, PIT: []string{"nil", "set"}[oi%2], Tree: opTree(l, op, pos, 2+(oi+pos)%2)}
+				h.one(r, in, false)
+				h.one(r, withCursor(in, oi+pos), false)
+				nop++
 			}
 		}
 	}
